@@ -134,7 +134,8 @@ Inductive op :=
 | Load (n : str) (imp : N) (initf : bool) (o : oracle)
 | Unload (n : str) (dief : bool)
 | Reload (n : str) (imp : N) (initf dief : bool) (o : oracle).
-(* imp: 0 module imports; 1 ImportError while importing; other: any other exception.
+(* imp: 0 module imports; 1 ImportError while importing; 2 any other exception while importing;
+   3 (reload only) the module-level reload() hook of the old module raises.
    initf: Class(irc) raises.  dief: the registered instance's die() raises. *)
 
 Section World.
@@ -159,7 +160,20 @@ Inductive imp_res := Mod (p : pspec) | ImpErr | OtherExc.
 Definition load_plugin_module (n : str) (imp : N) : imp_res :=
   match find_spec n with
   | None => ImpErr                              (* raise ImportError(name) *)
-  | Some p => match imp with 0 => Mod p | 1 => ImpErr | _ => OtherExc end
+  | Some p => match imp with 0 => Mod p | 1 => ImpErr | 2 => OtherExc | _ => Mod p end
+  end.
+
+(* Owner.reload, the try block (since fix C20.F26 it starts with the optional module-level hook):
+     if hasattr(module, 'reload'): x = module.reload()      -- of the OLD module; imp >= 3: it raises
+     module = plugin.loadPluginModule(name) ... *)
+Definition reload_module (n : str) (imp : N) : imp_res :=
+  if N.leb 3 imp then OtherExc else load_plugin_module n imp.
+
+(* Owner.load:  if name.endswith('.py'): name = name[:-3] *)
+Definition strip_py (n : str) : str :=
+  match rev n with
+  | 121 :: 112 :: 46 :: r => rev r
+  | _ => n
   end.
 
 (* plugin.loadPluginClass: Class(irc); assert not irc.getCallback(name); irc.addCallback(cb) *)
@@ -173,7 +187,8 @@ Definition load_plugin_class (s : st) (p : pspec) (initf : bool) (o : oracle) : 
 Definition is_owner (n : str) : bool := seq_eqb (lower n) (lower gen.T20.OWNER_NAME).
 
 (* replies: Ok 0 = replySuccess, Ok 1 = irc.error(...), Raise = exception out of the command *)
-Definition owner_load (s : st) (n : str) (imp : N) (initf : bool) (o : oracle) : st * res N :=
+Definition owner_load (s : st) (n0 : str) (imp : N) (initf : bool) (o : oracle) : st * res N :=
+  let n := strip_py n0 in
   match get_callback (s_cbs s) n with
   | Some _ => (s, Ok 1)
   | None =>
@@ -217,7 +232,7 @@ Definition owner_reload (s : st) (n : str) (imp : N) (initf dief : bool) (o : or
     | [] => (St good (s_next s) (s_dead s), Ok 1)
     | _ =>
         (* module = sys.modules.get(callbacks[0].__module__): no KeyError (fix C20.F24) *)
-        match load_plugin_module n imp with
+        match reload_module n imp with
         | OtherExc =>                                  (* except Exception: put `bad` back, re-raise (fix C20.F21) *)
             let '(cbs', r) := readd o good bad in (St cbs' (s_next s) (s_dead s), do _ <- r; Raise OtherError)
         | ImpErr =>
